@@ -293,7 +293,7 @@ func wordCase(w *syntax.Word, minify bool, delim string, src string) (WordCase, 
 }
 
 // Words emits n generated word cases plus the fragment words of the corpus.
-func Words(seed uint64, n int) {
+func Words(seed uint64, n int, quick bool) {
 	r := hx.Rand(seed, 101)
 	for i := 0; i < n; i++ {
 		w := GenWord(r)
@@ -328,6 +328,10 @@ func Words(seed uint64, n int) {
 					continue
 				}
 				seen[key] = true
+				// quick tier: a seed-rotated half of the corpus words (the thorough tier takes all)
+				if quick && uint64(len(seen))%2 != seed%2 {
+					continue
+				}
 				for _, m := range []bool{false, true} {
 					c, ok := wordCase(w, m, delims[cnt%len(delims)], "corpus")
 					if ok {
